@@ -472,6 +472,11 @@ def monitorOp (mu : Mon) (prev : Args) (toks : List String) (implOk : Bool) (out
           | none => [mk "C08" "C08/spend-without-allowance" s!"subkey={snd}"]
          else [])
        else []) ++
+      -- the only way a subkey moves the proxy's funds is a bank send charged to its allowance: a relayed burn spends
+      -- them without any deduction (whatever the burnt amount, it is beyond the allowance)
+      (if kind == "execute" && implOk && !wasAdmin && mu.sub
+          && msgs.any (fun m => match m with | .bankBurn cs => cs.any (fun c => c.2 != 0) | _ => false) then
+        [mk "C08" "C08/burn-relayed-for-subkey" s!"subkey={snd} msgs={a.str "msgs"}"] else []) ++
       -- frame: an allowance changes only by an admin's increase/decrease for that subkey, or by its own Execute
       (changedAl.filterMap fun k =>
         if implOk && wasAdmin && (kind == "increase_allowance" || kind == "decrease_allowance") && spender == k then none
